@@ -111,6 +111,12 @@ def directed():
         S.append([c0(), call("delete", plan={dt: ["eb:Throttling"]}), call("delete", plan={dl: ["eb:Throttling"]}), call("delete")])
         S.append([c0(), call("delete", ghost=3)])
         S.append([c0(), call("delete"), call("delete", ghost=1)])
+        # the metadata service fails reads (5xx is retried four times by the reader, then the read fails)
+        S.append([c0(), call("load", plan={"meta": ["e500"]}), call("load", plan={"meta": ["e500"] * 4}), call("load", plan={"meta": ["ok", "lost", "lost", "lost", "lost"]})])
+        S.append([c0(), call("attached", plan={"meta": ["ok", "ok", "e500", "e500", "e500", "e500"]}), call("attached", plan={"meta": ["e500"] * 2})])
+        S.append([c0(), call("create", n4=2, n6=n6, plan={"meta": ["e500"] * 9}), call("attached")])
+        S.append([c0(), call("create", n4=2, n6=n6, plan={"meta": ["ok"] * 3 + ["e500"] * 4}), call("attached")])
+        S.append([c0(), call("assign", n4=2, plan={"meta": ["e500"] * 5}), call("unassign", idx=[0, 1], plan={"meta": ["e500"] * 5}), call("load")])
         # two callers at once (separate interfaces; same interface)
         S.append([conf(v6=v6, slots=2, pre=base + [pre_eni(vsw=2)]), call("assign", c=1, ei=0, n4=2, plan={a4: ["lost"]}, mlag=1, **{"async": True}),
                   call("assign", c=2, ei=1, n4=2, mlag=1, **{"async": True}), dict(a="wait", c=1), dict(a="wait", c=2), call("attached")])
@@ -121,8 +127,13 @@ def directed():
     return S
 
 
+META_OUT = ["e500", "lost", "ok", "ok"]
+
+
 def rand_plan(rng, acts, p=0.5, maxlen=3):
     plan = {}
+    if rng.random() < 0.12:       # the metadata service itself fails some reads
+        plan["meta"] = [rng.choice(META_OUT) for _ in range(rng.choice([1, 2, 4, 5, 9]))]
     for act, outs in acts:
         if rng.random() < p:
             n = rng.choice([1, 1, 1, 2, maxlen, 7]) if rng.random() < 0.9 else 1
@@ -170,6 +181,8 @@ def random_scenarios(seed, n):
                 kw.update(plan=rand_plan(rng, [("DetachNetworkInterface", DETACH_OUT), ("DeleteNetworkInterface", DELETE_OUT)], p=0.4))
             elif k == "attached":
                 kw.update(trunk=rng.choice([0, 0, 1, 2]), plan=rand_plan(rng, [("DescribeNetworkInterfaces", DESCRIBE_OUT)], p=0.3))
+            elif k == "load":
+                kw.update(plan=rand_plan(rng, [], p=0))
             if slots == 2 and rng.random() < 0.6:
                 kw["async"] = True
                 pending.add(c)
@@ -262,38 +275,97 @@ def classify(pid, bad):
     return "%s_factory_at_%s" % (pid.lower(), ev)
 
 
+class Sub:
+    """A private slice of the context so that TLC runs / builds can go in parallel threads (vlib names scratch dirs by run count)."""
+    def __init__(self, ctx, name):
+        self.ctx, self.name = ctx, name
+        self.scratch = ctx.sub("par-" + name)
+        self.seed, self.tier, self.prop = ctx.seed, ctx.tier, ctx.prop
+        self.tlc_runs, self.tlc_states, self.tlc_transitions, self.notes = [], 0, 0, []
+
+    @property
+    def quick(self):
+        return self.tier == "quick"
+
+    def sub(self, name):
+        p = os.path.join(self.scratch, name)
+        os.makedirs(p, exist_ok=True)
+        return p
+
+    def merge(self):
+        self.ctx.tlc_runs += self.tlc_runs
+        self.ctx.tlc_states += self.tlc_states
+        self.ctx.tlc_transitions += self.tlc_transitions
+        self.ctx.notes += self.notes
+
+
 def prepare(ctx):
-    """MC + scenarios + build + harness runs, once per ctx."""
+    """MC + scenarios + builds + harness runs, once per ctx; the independent parts run in parallel threads."""
     if getattr(ctx, "_factory", None):
         return ctx._factory
     q = ctx.quick
-    mc = tlc_mc(ctx, "Factory_mc", "Factory_mc.cfg" if q else "Factory_mc_thorough.cfg", timeout=1500, coverage=not q)
-    gen = tc.simulate(ctx, "Factory_mc", "Factory_gen.cfg", num=150 if q else 1500, depth=60)
-    scens = []
-    with open(gen) as fh:
-        for line in fh:
-            if line.strip():
-                scens.append(("tlc", json.loads(line)))
-    scens += [("directed", s) for s in directed()]
-    scens += [("random", s) for s in random_scenarios(ctx.seed, 400 if q else 6000)]
-    sf = os.path.join(ctx.scratch, "factory.scen.ndjson")
-    with open(sf, "w") as fh:
-        for _, s in scens:
-            fh.write(json.dumps(s) + "\n")
-    sync_bin = build(ctx, True)
-    traces = run_harness(ctx, sync_bin, sf, 8 if q else 16, "sync")
-    # the same driver on the real clock (the constants of aliyun.go are paid): a sample of cheap scenarios, one per process
-    real_bin = build(ctx, False)
-    cheap = sorted((s for _, s in scens if cost(s) <= (9 if q else 25)), key=lambda s: -cost(s))
-    rng = random.Random(ctx.seed)
-    rng.shuffle(cheap)
-    nreal = 32 if q else 96
+    t00 = time.time()
+    subs = []
+
+    def sub(name):
+        s = Sub(ctx, name)
+        subs.append(s)
+        return s
+
+    def do_mc():
+        s = sub("mc")
+        mc = tlc_mc(s, "Factory_mc", "Factory_mc.cfg" if q else "Factory_mc_thorough.cfg", timeout=1500, coverage=not q, workers=8)
+        states, trans = mc.distinct, mc.generated
+        if not q:
+            mc6 = tlc_mc(s, "Factory_mc", "Factory_mc_thorough6.cfg", timeout=1500, workers=8)
+            states, trans = states + mc6.distinct, trans + mc6.generated
+        return mc, states, trans
+
+    def do_gen(cfg):
+        s = sub("gen-" + cfg)
+        out = []
+        with open(tc.simulate(s, "Factory_mc", cfg, num=120 if q else 1500, depth=120)) as fh:
+            for line in fh:
+                if line.strip():
+                    out.append(("tlc", json.loads(line)))
+        return out
+
+    own = [("directed", s) for s in directed()] + [("random", s) for s in random_scenarios(ctx.seed, 250 if q else 6000)]
+    # the real-clock sample: cheap scenarios (the constants of aliyun.go are paid), one per process
+    cheap = [s for _, s in own if cost(s) <= (6 if q else 25)]
+    random.Random(ctx.seed).shuffle(cheap)
+    cheap = cheap[:24 if q else 96]
     rf = os.path.join(ctx.scratch, "factory.real.scen.ndjson")
     with open(rf, "w") as fh:
-        for s in cheap[:nreal]:
+        for s in cheap:
             fh.write(json.dumps(s) + "\n")
-    real = run_harness(ctx, real_bin, rf, min(nreal, len(cheap[:nreal])) or 1, "real", timeout=300 if q else 900)
-    ctx._factory = dict(mc=mc, scens=scens, traces=traces, real=real, nsrc={k: sum(1 for s, _ in scens if s == k) for k in ("tlc", "directed", "random")})
+
+    def do_build():
+        s = sub("build")
+        return build(s, True), build(s, False)      # one after the other: GOEXPERIMENT is process-wide
+
+    with concurrent.futures.ThreadPoolExecutor(max_workers=6) as ex:
+        f_mc = ex.submit(do_mc)
+        f_gen = [ex.submit(do_gen, cfg) for cfg in ("Factory_gen.cfg", "Factory_gen4.cfg")]
+        f_build = ex.submit(do_build)
+        sync_bin, real_bin = f_build.result()
+        t0 = time.time()
+        f_real = ex.submit(run_harness, ctx, real_bin, rf, max(len(cheap), 1), "real", 300 if q else 900)
+        scens = [x for f in f_gen for x in f.result()] + own
+        sf = os.path.join(ctx.scratch, "factory.scen.ndjson")
+        with open(sf, "w") as fh:
+            for _, s in scens:
+                fh.write(json.dumps(s) + "\n")
+        traces = run_harness(ctx, sync_bin, sf, 8 if q else 16, "sync")
+        log("factory: %d scenarios on the virtual clock: %d traces, %.1fs after the builds" % (len(scens), len(traces), time.time() - t0))
+        real = f_real.result()
+        log("factory: %d scenarios on the real clock, %.1fs after the builds" % (len(real), time.time() - t0))
+        mc, states, trans = f_mc.result()
+    for s in subs:
+        s.merge()
+    log("factory: prepared in %.1fs" % (time.time() - t00))
+    ctx._factory = dict(mc=mc, states=states, transitions=trans, scens=scens, traces=traces, real=real,
+                        nsrc={k: sum(1 for s, _ in scens if s == k) for k in ("tlc", "directed", "random")})
     return ctx._factory
 
 
@@ -301,7 +373,11 @@ def stage(ctx, pid):
     assert pid in PIDS
     st = prepare(ctx)
     alltr = st["traces"] + st["real"]
-    rej = tc.validate_many(ctx, "Factory_trace", trace_cfg(pid), [strip(t) for t in alltr], max_reruns=8)
+    t0 = time.time()
+    vs = Sub(ctx, "val-" + pid)        # private scratch: the stages of one ctx may validate in parallel threads
+    rej = tc.validate_many(vs, "Factory_trace", trace_cfg(pid), [strip(t) for t in alltr], max_reruns=8)
+    vs.merge()
+    log("factory: %d traces validated for %s in %.1fs, %d rejected" % (len(alltr), pid, time.time() - t0, len(rej)))
     for k, line in rej:
         t = alltr[k]
         bad = t[line - 1] if line - 1 < len(t) else {}
@@ -313,7 +389,7 @@ def stage(ctx, pid):
         for g in tags(t):
             tagc[g] = tagc.get(g, 0) + 1
     relevant = {"lost_reply", "refused", "partial", "token_replay", "eni_with_error", "addrs_with_error", "remote_remove", "two_callers"}
-    return dict(states=st["mc"].distinct, transitions=st["mc"].generated, traces=len(alltr), traces_validated_against_impl=len(alltr),
+    return dict(states=st["states"], transitions=st["transitions"], traces=len(alltr), traces_validated_against_impl=len(alltr),
                 evaluations=len(alltr), traces_virtual_clock=len(st["traces"]), traces_real_clock=len(st["real"]),
                 events=sum(len(t) for t in alltr), factory_calls=sum(1 for t in alltr for r in t if r["ev"] == "call"),
                 http_requests=sum(1 for t in alltr for r in t if r["ev"] == "http"), scenario_sources=st["nsrc"], trace_tags=tagc,
